@@ -16,6 +16,11 @@ use std::sync::atomic::{AtomicBool, AtomicUsize, Ordering};
 use std::sync::{Arc, Mutex};
 use std::time::{Duration, Instant};
 
+/// the tree under test: /repo, or $VERIF_REPO (a snapshot of /repo handed to a background run)
+pub fn repo_dir() -> String {
+    std::env::var("VERIF_REPO").ok().filter(|s| !s.is_empty()).unwrap_or_else(|| "/repo".to_string())
+}
+
 /// root of the verification tree: /verif, or $VERIF_DIR (set by ./check to its own directory, so that a
 /// snapshot of the tree started with `vp run` keeps its files to itself)
 pub fn verif_dir() -> String {
@@ -91,8 +96,9 @@ pub fn install_panic_hook() {
         for l in lines.iter() {
             let t = l.trim();
             if let Some(rest) = t.strip_prefix("at ") {
-                if rest.starts_with("/repo/") {
-                    let loc = rest.trim_start_matches("/repo/");
+                let repo_prefix = format!("{}/", repo_dir());
+                if rest.starts_with(&repo_prefix) {
+                    let loc = rest.trim_start_matches(repo_prefix.as_str());
                     let loc = loc.rsplitn(2, ':').nth(1).unwrap_or(loc); // drop the column
                     let mut chain = pending_unlocated.join(" < ");
                     if !chain.is_empty() {
